@@ -18,10 +18,15 @@ R = Registry(
         "overrides): the processed value reaches the returned SQL text only through an enumerated sanitiser "
         "(quote doubling before quote wrapping, int()/float()/Decimal validation, duck-typed date/number "
         "APIs, delegation to another literal processor, selection between constants); dialects that enable "
-        "backslash escapes double backslashes after the generic rendering, percent-doubling sites agree; "
-        "render_literal_value renders NULL for None and raises CompileError when no processor exists."
+        "backslash escapes double backslashes in the text rendered by super() -- for every value, on every path on "
+        "which the flag can be set (only `not flag` / `no backslash in the text` outcomes may bypass it) -- and "
+        "return the doubled text; percent-doubling sites agree; render_literal_value never hands None to a "
+        "processor unless the type evaluates None, and raises CompileError when no processor exists; every site "
+        "that short-circuits a typed None to SQL NULL (literal coercion, render_literal_value, "
+        "render_literal_bindparam) requires `not type.should_evaluate_none`, as the bound path does."
     ),
-    not_decided="equality of literal-rendered and bound execution results on a backend; DBAPI-level quoting.",
+    not_decided="equality of literal-rendered and bound execution results on a backend; DBAPI-level quoting; what a "
+                "type's bind processor and literal processor do with None (only that both are consulted).",
 )
 
 # abstract levels, worst to best
